@@ -344,3 +344,7 @@ proof fn lemma_lit_lines_shape(v: Seq<char>)
 proof fn lemma_empties_push(a: Seq<Seq<char>>, k: nat)
     ensures a + empties(k + 1) =~= (a + empties(k)).push(Seq::<char>::empty()), a + empties(0) =~= a,
 {}
+
+/// `%YAML 1.2` directive line followed by the document start marker line (YAML 1.2, 9.1: a document that has
+/// directives must begin with an explicit `---`)
+spec fn yaml12_document_prefix() -> Seq<char> { seq!['%', 'Y', 'A', 'M', 'L', ' ', '1', '.', '2', '\n', '-', '-', '-', '\n'] }
